@@ -63,10 +63,11 @@ type State struct {
 	ownRoots *lineNode // roots (heapTop terms) of objects allocated by the function under verification on this path
 	epoch    string    // id of the last havoc-everything event ("0" = function entry)
 	epochTop string
+	iterTop  string // heap top at the start of the current iteration of the innermost loop being verified ("" outside loops)
 }
 
 func (s *State) clone() *State {
-	n := &State{lines: s.lines, heapTop: s.heapTop, epoch: s.epoch, epochTop: s.epochTop, ownRoots: s.ownRoots}
+	n := &State{lines: s.lines, heapTop: s.heapTop, epoch: s.epoch, epochTop: s.epochTop, ownRoots: s.ownRoots, iterTop: s.iterTop}
 	n.mem = make(map[string]string, len(s.mem))
 	for k, v := range s.mem {
 		n.mem[k] = v
